@@ -313,6 +313,53 @@ def leaf_paths(t, rng, rt_indices=(0, 3)):
     return out
 
 
+def constructible(t):
+    k = t[0]
+    if k in ("a", "rarr"):
+        return False
+    if k == "arr":
+        return constructible(t[1])
+    if k == "st":
+        return all(constructible(m[2]) for m in t[1])
+    return True
+
+
+def all_leaves(t):
+    """paths of every scalar / vector / matrix column inside t, in declaration order"""
+    k = t[0]
+    if k in ("s", "v", "a"):
+        return [[]]
+    if k == "m":
+        return [[c] for c in range(t[1])]
+    if k == "arr":
+        return [[i] + p for i in range(t[2]) for p in all_leaves(t[1])]
+    if k == "rarr":
+        return []
+    return [[i] + p for i, m in enumerate(t[1]) for p in all_leaves(m[2])]
+
+
+def pick_copy(t, rng, max_leaves=48):
+    """an aggregate (struct / array / matrix) inside t that can be loaded and stored as a whole"""
+    cands = []
+
+    def walk(node, path):
+        k = node[0]
+        if k in ("st", "arr", "m") and constructible(node):
+            n = len(all_leaves(node))
+            if 2 <= n <= max_leaves:
+                cands.append((path, node))
+        if k == "st":
+            for i, m in enumerate(node[1]):
+                walk(m[2], path + [i])
+        elif k == "arr":
+            walk(node[1], path + [0])
+    walk(t, [])
+    if not cands:
+        return None
+    path, node = cands[rng.below(min(len(cands), 3))]
+    return path, all_leaves(node)
+
+
 def path_text(t, p):
     """WGSL access expression suffix for path p into type t"""
     s = ""
@@ -372,6 +419,11 @@ def program(storage_t, uniform_t, rng, workgroup=False, max_paths=60):
         else:
             body.append("  sb%s = %s;" % (path_text(storage_t, p), value_text(lt, k)))
         info_paths.append((k, p, lt))
+    copy = pick_copy(storage_t, rng)
+    if copy is not None:
+        cp, cleaves = copy
+        body.append("  var tmpv = sb%s;" % path_text(storage_t, cp))
+        body.append("  sb%s = tmpv;" % path_text(storage_t, cp))
     if uniform_t is not None:
         up = leaf_paths(uniform_t, rng)[0]
         body.append("  let tmp_u = ub%s;" % path_text(uniform_t, up[0]))
@@ -391,7 +443,8 @@ def program(storage_t, uniform_t, rng, workgroup=False, max_paths=60):
     src.append("@compute @workgroup_size(1) fn main() {")
     src += body
     src.append("}")
-    return "\n".join(src) + "\n", {"paths": info_paths, "sname": sname, "uname": uname, "structs": R.structs}
+    return "\n".join(src) + "\n", {"paths": info_paths, "sname": sname, "uname": uname, "structs": R.structs,
+                                   "copy": ([cp + l for l in cleaves] if copy is not None else None)}
 
 
 # ----------------------------------------------------------------------------
@@ -564,6 +617,8 @@ def hlsl_stores(text, buf="sb"):
     out = []
     cur_k = None
     for line in text.splitlines():
+        if re.match(r"\s*tmpv\s*=", line):
+            break      # what follows is the whole-aggregate copy (hlsl_copy_addresses)
         m = HLSL_VALUE_DECL.search(line)
         if m:
             mk = NUM.search(m.group(2))
@@ -571,7 +626,7 @@ def hlsl_stores(text, buf="sb"):
                 cur_k = int(mk.group(1))
             continue
         m = HLSL_CALL.search(line)
-        if not m or m.group(1) != buf:
+        if not m or m.group(1) != buf or m.group(2).startswith("Load"):
             continue
         addr = m.group(3).strip()
         terms = addr.split("+") if addr else []
@@ -766,21 +821,29 @@ class Hlsl:
                 fields = []
                 tags = []
                 i += 1
+                broken = None
                 while i < len(lines) and lines[i].strip() != "};":
                     decls = [d.strip() for d in lines[i].strip().split(";") if d.strip()]
                     for k, d in enumerate(decls):
-                        fname, h, tag = self.field(d + ";")
+                        try:
+                            fname, h, tag = self.field(d + ";")
+                        except ValueError as e:
+                            # a struct that is not understood only matters if a cbuffer uses it
+                            broken = str(e)
+                            continue
                         pad = fname.startswith("_pad") or fname.startswith("_end_pad") or k > 0
                         if k > 0 and h != ["v", 2]:
                             raise ValueError("HLSL: unexpected multi-declaration line %r" % lines[i])
                         fields.append([pad, h])
                         tags.append("leaf" if (k == 0 and len(decls) > 1) else tag)
                     i += 1
-                self.defs[name] = (["st", fields], ("st", tags))
+                self.defs[name] = (["st", fields], ("st", tags)) if broken is None else broken
             i += 1
 
     def base(self, ty):
         if ty in self.defs:
+            if isinstance(self.defs[ty], str):
+                raise ValueError(self.defs[ty])
             return self.defs[ty]
         if ty in HL_SCALAR:
             return ["s"], "leaf"
@@ -845,3 +908,55 @@ def hl_continuations_ok(hl):
         bad += hl_continuations_ok(sub)
         prev = (o, sub)
     return bad
+
+
+def lay_at(l, diff):
+    """sub-layout of the member preceding the one named in a first_diff text '<path>.mJ: offset ..'"""
+    mm = re.match(r"((?:\.m\d+|\[\])*)\.m(\d+): offset", diff or "")
+    if not mm:
+        return None
+    for step in re.findall(r"\.m(\d+)|(\[\])", mm.group(1)):
+        if step[1]:
+            if l[0] != "a":
+                return None
+            l = l[3]
+        else:
+            if l[0] != "s":
+                return None
+            l = l[3][int(step[0])]
+    j = int(mm.group(2))
+    if l[0] != "s" or j == 0:
+        return None
+    return l[3][j - 1]
+
+
+HLSL_ANY_CALL = re.compile(r"\b(\w+)\.(Store[234]?|Load[234]?)\s*(?:<[^>]*>)?\(\s*([0-9+ ]*)\s*[,)]")
+
+
+def hlsl_copy_addresses(text, buf="sb"):
+    """addresses of the loads of `var tmpv = sb.P;` (the only loads from the buffer in the
+    generated programs) and of the stores of `sb.P = tmpv;` (every store after `tmpv = ..`)"""
+    lines = text.splitlines()
+    loads, stores = [], None
+    for i, ln in enumerate(lines):
+        for m in HLSL_ANY_CALL.finditer(ln):
+            if m.group(1) == buf and m.group(3).strip():
+                a = sum(int(x) for x in m.group(3).split("+"))
+                if m.group(2).startswith("Load"):
+                    loads.append(a)
+                elif stores is not None:
+                    stores.append(a)
+        if re.match(r"\s*tmpv\s*=", ln) and stores is None:
+            stores = []
+    return loads, stores
+
+
+def has_struct_span_not_16(l, root=True):
+    """a structure strictly inside l whose span is not a multiple of 16"""
+    if l[0] == "a":
+        return has_struct_span_not_16(l[3], False)
+    if l[0] == "s":
+        if not root and l[1] % 16 != 0:
+            return True
+        return any(has_struct_span_not_16(x, False) for x in l[3])
+    return False
